@@ -504,10 +504,15 @@ start:
 			case *ir.MultiConvert:
 				s.set(v, s.get(v.X))
 			case *ir.Load:
+				// We know nothing about the loaded value. For interface
+				// values this includes the value stored in the interface:
+				// leaving Inner unset would let a later merge with a nil
+				// constant claim that the interface, when not nil, always
+				// holds a nil value.
 				if _, ok := v.X.(*ir.Global); ok {
-					s.setOuter(v, MaybeNilGlobal)
+					s.set(v, ValueNilness{Inner: MaybeNil, Outer: MaybeNilGlobal})
 				} else {
-					s.setOuter(v, MaybeNil)
+					s.set(v, ValueNilness{Inner: MaybeNil, Outer: MaybeNil})
 				}
 				s.setOuter(v.X, NeverNil)
 			case *ir.FieldAddr:
